@@ -54,7 +54,7 @@ ANCHORS = ["openfisca_web_api/handlers.py", "openfisca_web_api/app.py", "openfis
 RULE = ("api cases: a generated ranked rule system (3-7 variables: int/float/bool, person/group, dated formulas, "
         "parameters) + 7 fixed extra variables (enum, date, str, float with quarters), one Flask app, 5-8 operations: "
         "POST /calculate and /trace of situations with null slots over every value type and both entities (ids in "
-        "non-sorted order, numeric-looking ids, instances without keys, households omitted, non-canonical period keys, "
+        "non-sorted order, numeric-looking ids, half of the time the same ids for persons and households at different positions, instances without keys, households omitted, non-canonical period keys, "
         "inputs that cover part of an array), the same situation again later, a sibling situation with other input "
         "values, a malformed stream (unknown variable / entity, variable of another entity, invalid period key, slot of "
         "the wrong period unit), GET /parameter/p<k> and /variable/<name>; yaml cases: one system and a file of 10-14 "
@@ -62,8 +62,8 @@ RULE = ("api cases: a generated ranked rule system (3-7 variables: int/float/boo
         "forms, margins absent / absolute / relative / both / per-variable maps, expected values chosen equal, inside, "
         "exactly at and beyond the margin from the real engine values.  A case is non-trivial when at least one slot "
         "was filled with a formula result (api) or at least one test passes and one fails (yaml); distinct by JSON text.  "
-        "Quick tier, seed 0: 48 application instances with 253 POST requests (120 of them also answered by the "
-        "Engine.v machine) + 65 listing requests, 936 filled slots; 30 YAML files with 356 tests")
+        "Quick tier: 100 application instances (about 520 POST requests, half of them also answered by the Engine.v "
+        "machine, and 130 listing requests) and 56 YAML files (about 670 tests)")
 TRUSTED = ["PARTIAL: HTTP (Flask, werkzeug), JSON encoding/decoding, dpath, PyYAML and pytest collection are glue "
            "exercised only by the correspondence run, no theorem is about them",
            "harness/rules.py: compiler from rule-system terms to real Variable subclasses; harness/c20.py: translation of "
@@ -426,10 +426,28 @@ def input_value(rng, x):
 
 
 def gen_population(rng):
+    """ids of persons and households.  Half of the time the two entity kinds SHARE ids (numeric-looking
+    "1", "2", ... or the same names) at different positions: an index remembered by id alone, or looked up in
+    the wrong population, then selects another instance's value."""
     pop = rules.gen_pop(rng, 4)
     n = len(pop["ids"])
-    pids = rng.sample(ID_POOL_P, n)
-    hids = rng.sample(ID_POOL_H, pop["count"])
+    count = pop["count"]
+    r = rng.random()
+    if r < 0.3:
+        pool = [str(k) for k in range(1, max(n, count) + 2)]
+        pids = rng.sample(pool, n)
+        hids = rng.sample(pool, count)
+    elif r < 0.5:
+        pids = rng.sample(ID_POOL_P, n)
+        pool = list(reversed(pids)) + rng.sample(ID_POOL_H, 3)
+        hids = []
+        for k in range(count):
+            # the household at position k takes the id of a person at another position when there is one
+            cands = [x for j, x in enumerate(pids) if j != k and x not in hids] or [x for x in pool if x not in hids]
+            hids.append(rng.choice(cands) if rng.random() < 0.8 else rng.choice([x for x in pool if x not in hids]))
+    else:
+        pids = rng.sample(ID_POOL_P, n)
+        hids = rng.sample(ID_POOL_H, count)
     return pop, pids, hids
 
 
@@ -817,7 +835,7 @@ def gen_yaml_test(rng, sysj, vt, tbs, k):
 # ---------------------------------------------------------------------------------------
 
 def generate(rng, tier):
-    n_api, n_yaml = {"quick": (48, 30), "escalated": (120, 80), "thorough": (400, 250)}[tier]
+    n_api, n_yaml = {"quick": (100, 56), "escalated": (120, 80), "thorough": (400, 250)}[tier]
     cases = []
     with warnings.catch_warnings():
         warnings.simplefilter("ignore")
